@@ -22,7 +22,7 @@ import (
 type KindOperand struct {
 	Kind string `json:"kind"` // int64 float64 str bool nil | float32 int32 int16 int8 int uint8 uint16 uint32 uint64 uint
 	Num  string `json:"num"`  // the number, spelled as an anko numeric literal (ignored for bool / nil)
-	Via  string `json:"via"`  // typed kinds only: slice (element of a typed slice literal) | host (result of a Go function)
+	Via  string `json:"via"`  // typed kinds only: slice (element of a typed slice literal) | host (result of a Go function) | parse (uint64 / uint only: result of a Go function that reads the decimal spelling, the only way to a value above MaxInt64)
 	Held string `json:"held"` // lit (used where it stands) | var | elem (read back from an untyped list)
 }
 
@@ -39,6 +39,61 @@ var plainKinds = []string{"int64", "float64", "float64", "str", "bool", "nil"}
 var kindNums = []string{"0", "1", "2", "1.5", "0.5", "1.1", "0.1", "2.7", "3", "100", "127", "128", "255", "256", "32767", "65535", "65536", "16777216", "16777217", "2147483647", "4294967295",
 	"9007199254740993", "9223372036854775807", "1e10", "3.4e38", "1e-3"}
 
+// integers above MaxInt64: only an unsigned 64-bit kind holds them
+var bigUnsigned = []string{"9223372036854775807", "9223372036854775808", "9223372036854775809", "12297829382473034410", "18446744073709551614", "18446744073709551615"}
+
+func isWideUnsigned(kind string) bool { return kind == "uint64" || kind == "uint" }
+
+// fitNums[kind]: the numbers of kindNums the kind can hold
+var fitNums = func() map[string][]string {
+	m := map[string][]string{}
+	for _, k := range typedKinds {
+		if _, done := m[k]; done {
+			continue
+		}
+		for _, n := range kindNums {
+			if kindFits(k, n) {
+				m[k] = append(m[k], n)
+			}
+		}
+	}
+	return m
+}()
+
+// genSameKind: both operands of ONE typed Go kind, over numbers the kind holds (so the case is
+// not lost to the range guard): equal, different, of opposite sign; for the 64-bit unsigned kinds
+// half of the pairs lie above MaxInt64.
+func genSameKind(t *rapid.T) KindsCase {
+	k := rapid.SampledFrom(typedKinds).Draw(t, "samekind")
+	var c KindsCase
+	c.A.Kind, c.B.Kind = k, k
+	if isWideUnsigned(k) && rapid.Bool().Draw(t, "big") {
+		c.A.Via, c.B.Via = "parse", "parse"
+		c.A.Num = rapid.SampledFrom(bigUnsigned).Draw(t, "anum")
+		c.B.Num = rapid.SampledFrom(bigUnsigned).Draw(t, "bnum")
+	} else {
+		c.A.Via = rapid.SampledFrom([]string{"slice", "host"}).Draw(t, "avia")
+		c.B.Via = rapid.SampledFrom([]string{"slice", "host"}).Draw(t, "bvia")
+		c.A.Num = rapid.SampledFrom(fitNums[k]).Draw(t, "anum")
+		c.B.Num = rapid.SampledFrom(fitNums[k]).Draw(t, "bnum")
+	}
+	if rapid.IntRange(0, 2).Draw(t, "samenum") == 0 {
+		c.B.Num = c.A.Num
+	}
+	if !strings.HasPrefix(k, "uint") {
+		// the negative limits are one below the negated positive ones; -max always fits
+		if rapid.IntRange(0, 3).Draw(t, "aneg") == 0 {
+			c.A.Num = "-" + c.A.Num
+		}
+		if rapid.IntRange(0, 3).Draw(t, "bneg") == 0 {
+			c.B.Num = "-" + c.B.Num
+		}
+	}
+	c.A.Held = rapid.SampledFrom([]string{"lit", "var", "var", "elem"}).Draw(t, "aheld")
+	c.B.Held = rapid.SampledFrom([]string{"lit", "var", "var", "elem"}).Draw(t, "bheld")
+	return c
+}
+
 func genKindOperand(t *rapid.T, label string) KindOperand {
 	o := KindOperand{}
 	if rapid.IntRange(0, 9).Draw(t, label+"typed") < 6 {
@@ -52,13 +107,20 @@ func genKindOperand(t *rapid.T, label string) KindOperand {
 		o.Num = "-" + o.Num
 	}
 	o.Held = rapid.SampledFrom([]string{"lit", "var", "var", "elem"}).Draw(t, label+"held")
+	if isWideUnsigned(o.Kind) && rapid.IntRange(0, 2).Draw(t, label+"big") == 0 {
+		o.Via = "parse"
+		o.Num = rapid.SampledFrom(bigUnsigned).Draw(t, label+"bignum")
+	}
 	return o
 }
 
 func genKinds(t *rapid.T) KindsCase {
+	if rapid.IntRange(0, 3).Draw(t, "kshape") == 0 {
+		return genSameKind(t)
+	}
 	c := KindsCase{A: genKindOperand(t, "a")}
 	c.B = genKindOperand(t, "b")
-	if rapid.Bool().Draw(t, "samenum") {
+	if rapid.Bool().Draw(t, "samenum") && c.B.Via != "parse" {
 		c.B.Num = strings.TrimPrefix(c.A.Num, "-")
 		if strings.HasPrefix(c.A.Num, "-") && !strings.HasPrefix(c.B.Kind, "uint") {
 			c.B.Num = c.A.Num
@@ -87,6 +149,82 @@ func kindFits(kind, num string) bool {
 	return ok && isInt && f >= l[0] && f <= l[1]
 }
 
+// operandFits: kindFits, or for a parsed operand: the spelling is an unsigned 64-bit integer
+func operandFits(o KindOperand) bool {
+	if o.Via == "parse" {
+		if !isWideUnsigned(o.Kind) {
+			return false
+		}
+		_, err := strconv.ParseUint(o.Num, 10, 64)
+		return err == nil
+	}
+	return kindFits(o.Kind, o.Num)
+}
+
+func aboveMaxInt64(o KindOperand) bool {
+	if o.Via != "parse" {
+		return false
+	}
+	u, err := strconv.ParseUint(o.Num, 10, 64)
+	return err == nil && u > math.MaxInt64
+}
+
+// goValue: the Go value of a typed operand, where Go's own conversions define it without any
+// doubt: an integer kind holding an integer in its range; a float32 when converting the number
+// as an integer and as a float64 gives the same float32.
+func goValue(o KindOperand) (interface{}, bool) {
+	if !operandFits(o) {
+		return nil, false
+	}
+	if strings.HasPrefix(o.Kind, "uint") {
+		u, err := strconv.ParseUint(o.Num, 10, 64)
+		if err != nil {
+			return nil, false
+		}
+		switch o.Kind {
+		case "uint8":
+			return uint8(u), true
+		case "uint16":
+			return uint16(u), true
+		case "uint32":
+			return uint32(u), true
+		case "uint64":
+			return uint64(u), true
+		case "uint":
+			return uint(u), true
+		}
+		return nil, false
+	}
+	if strings.HasPrefix(o.Kind, "int") {
+		i, err := strconv.ParseInt(o.Num, 10, 64)
+		if err != nil {
+			return nil, false
+		}
+		switch o.Kind {
+		case "int8":
+			return int8(i), true
+		case "int16":
+			return int16(i), true
+		case "int32":
+			return int32(i), true
+		case "int":
+			return int(i), true
+		}
+		return nil, false
+	}
+	if o.Kind == "float32" {
+		f, err := strconv.ParseFloat(o.Num, 64)
+		if err != nil {
+			return nil, false
+		}
+		if i, err := strconv.ParseInt(o.Num, 10, 64); err == nil && float32(i) != float32(f) {
+			return nil, false
+		}
+		return float32(f), true
+	}
+	return nil, false
+}
+
 func kindExpr(o KindOperand) string {
 	switch o.Kind {
 	case "nil":
@@ -111,6 +249,9 @@ func kindExpr(o KindOperand) string {
 	}
 	if o.Via == "host" {
 		return "to_" + o.Kind + "(" + o.Num + ")"
+	}
+	if o.Via == "parse" {
+		return "parse_" + o.Kind + "(" + strconv.Quote(o.Num) + ")"
 	}
 	return "[]" + o.Kind + "{" + o.Num + "}[0]"
 }
@@ -148,7 +289,7 @@ func oracleKinds(c KindsCase, o *h.Obs) *h.Fail {
 		o.Excluded = "malformed_case"
 		return nil
 	}
-	if !kindFits(c.A.Kind, c.A.Num) || !kindFits(c.B.Kind, c.B.Num) {
+	if !operandFits(c.A) || !operandFits(c.B) {
 		o.Excluded = "the number is outside the range of the kind"
 		return nil
 	}
@@ -168,6 +309,8 @@ func oracleKinds(c KindsCase, o *h.Obs) *h.Fail {
 	e.Define("to_uint32", func(x int64) uint32 { return uint32(x) })
 	e.Define("to_uint64", func(x int64) uint64 { return uint64(x) })
 	e.Define("to_uint", func(x int64) uint { return uint(x) })
+	e.Define("parse_uint64", func(s string) uint64 { u, _ := strconv.ParseUint(s, 10, 64); return u })
+	e.Define("parse_uint", func(s string) uint { u, _ := strconv.ParseUint(s, 10, 64); return uint(u) })
 	got, err := ank.Exec(e, src)
 	if hp, ok := ank.IsHostPanic(err); ok {
 		return h.Failf("C06|host-panic|kinds", "source:\n%s\nescaped panic: %v", src, hp.Value)
@@ -194,6 +337,23 @@ func oracleKinds(c KindsCase, o *h.Obs) *h.Fail {
 	fail := func(law, msg string) *h.Fail {
 		return h.Failf("C06|"+law+"|kinds|"+pair, "%s\nsource:\n%s\nresults (a == b, b == a, a != b, b != a, a in [b], b in [a], switch a {case b}, switch b {case a}): %v", msg, src, r)
 	}
+	// reference value: "two values of the same primitive type are equal exactly when Go's == says
+	// so" - both operands of ONE typed Go kind, the values taken from Go's own conversions
+	if c.A.Kind == c.B.Kind && typed(c.A.Kind) {
+		if va, ok := goValue(c.A); ok {
+			if vb, ok := goValue(c.B); ok {
+				want := va == vb // interface comparison: same dynamic type, Go's == on the values
+				o.Class("kinds:ref:same-kind")
+				o.Class(fmt.Sprintf("kinds:ref:same-kind:expected:%v", want))
+				if aboveMaxInt64(c.A) || aboveMaxInt64(c.B) {
+					o.Class("kinds:ref:same-kind:unsigned_above_MaxInt64")
+				}
+				if r[0] != want || r[1] != want {
+					return h.Failf("C06|ref:same-prim-kind|kinds|"+c.A.Kind, "two values of the Go type %s: Go's == says %v (%v against %v); anko says a == b is %v, b == a is %v\nsource:\n%s", c.A.Kind, want, va, vb, r[0], r[1], src)
+				}
+			}
+		}
+	}
 	if r[0] != r[1] {
 		return fail("law:symmetry", "a == b and b == a disagree")
 	}
@@ -208,6 +368,9 @@ func oracleKinds(c KindsCase, o *h.Obs) *h.Fail {
 	}
 	if r[0] {
 		o.Class("kinds:equal_pair")
+	}
+	if aboveMaxInt64(c.A) || aboveMaxInt64(c.B) {
+		o.Class("kinds:operand_above_MaxInt64")
 	}
 	return nil
 }
